@@ -71,8 +71,14 @@ for d in sorted(glob.glob(V + "/seeded/*/meta.json")):
     srows.append("| %s | %s | %s |" % (m["id"], first.replace("|", "\\|")[:160], (m.get("caught_by") or "not yet run").replace("|", "\\|")))
 seeds = "\n".join(srows)
 
+arows = ["| Prop | `Print Assumptions` over the theorems of its Properties files (last quick run on /repo) |", "|---|---|"]
+for f in sorted(glob.glob(V + "/evidence/*.json")):
+    e = json.load(open(f))
+    arows.append("| %s | %s |" % (e["property_id"], "; ".join(a.replace("|", "\\|") for a in e.get("assumptions", []) if a.startswith("Print Assumptions"))))
+axioms = "\n".join(arows)
+
 txt = open(V + "/DESIGN.md").read()
-for name, body in (("status", status), ("seeds", seeds)):
+for name, body in (("status", status), ("seeds", seeds), ("axioms", axioms)):
     b, e = "<!-- BEGIN:%s -->" % name, "<!-- END:%s -->" % name
     assert b in txt and e in txt, name
     txt = txt[:txt.index(b) + len(b)] + "\n" + body + "\n" + txt[txt.index(e):]
